@@ -154,7 +154,7 @@ def check_written_document(w: World, text: str, mt, *, exp_key_map, exp_value_ma
     if len(entries) - 1 != len(nodes):
         fail(f"{len(entries) - 1} entries for {len(nodes)} nodes")
     pos_of = {id(mt.root): 0}
-    first_of_data = {}  # id(data) -> (pos, MNode)
+    first_of_data = {}  # data_id -> [(pos, MNode)] first occurrences of distinct data
     typed = mt.typed
     for pos, m in enumerate(nodes, 1):
         pos_of[id(m)] = pos
@@ -162,10 +162,15 @@ def check_written_document(w: World, text: str, mt, *, exp_key_map, exp_value_ma
         if e.parent != pos_of[id(m.parent)]:
             fail(f"entry {pos} names parent {e.parent}, node's parent is entry "
                  f"{pos_of[id(m.parent)]} (node list not in pre-order / wrong index base)")
-        first = first_of_data.get(id(m.data))
+        # first occurrence of "the same data": same data_id and same/equal object
+        first = None
+        for cand in first_of_data.get(m.did, ()):
+            if cand[1].data is m.data or value_equal(cand[1].data, m.data):
+                first = cand
+                break
         custom = m.did != hash(m.data)
         if first is None:
-            first_of_data[id(m.data)] = (pos, m)
+            first_of_data.setdefault(m.did, []).append((pos, m))
         must_ref = (first is not None and first[1].did == m.did and not custom
                     and first[1].kind == m.kind)
         if e.kind_of_entry == "ref":
